@@ -1,4 +1,6 @@
 import Capella.Lemmas.Reads
+import Capella.Lemmas.Factories
+import Capella.Gen.Effects
 
 /-!
 # C11 — reading and rendering never change the model
@@ -104,6 +106,97 @@ theorem pvmt_idempotent_needs_unique :
   revert this
   decide
 
+/-! ## Effects: programs over the model trees, the live dispatch tables, the effect table of the parser
+
+From here on purity is not built into the model: a factory is a program that talks to the trees through
+requests, write requests exist, and the three factories as they were coded are programs of this kind
+that do write (`Capella.Factories.Coded`). -/
+
+open Capella.Effects Capella.Factories in
+/-- Frame rule, for every program and every tree: if no write request is reachable in the program, running it
+returns the tree it was given. -/
+theorem program_frame {α : Type} (p : Prog α) (h : Prog.ReadOnly p) (t : Tree) : (p.exec t).1 = t :=
+  Prog.exec_readOnly h t
+
+open Capella.Effects in
+/-- The same from the run instead of the program text: if the requests a run issued were all reads (this is
+what the write barrier observes on the implementation), the tree is unchanged. No assumption on the program. -/
+theorem trace_frame {α : Type} (p : Prog α) (t : Tree) (h : (p.trace t).all Instr.isRead = true) :
+    (p.exec t).1 = t :=
+  Prog.exec_of_trace_reads p t h
+
+open Capella.Effects Capella.Factories in
+/-- Every row of the dispatch tables generated from the live code (`STYLECLASS_LOOKUP` with the generic
+fallback, `VISUAL_TYPES`, `COMPOSITE_FILTERS`, `GLOBAL_FILTERS`) names a function the model implements … -/
+theorem live_tables_modelled : tableModelled Capella.Gen.Effects.table.dispatch := by
+  intro r hr
+  exact List.all_eq_true.mp Capella.Gen.Effects.dispatch_factories_modelled r hr
+
+open Capella.Effects Capella.Factories in
+/-- … and the factory behind every row returns the tree unchanged, for every tree, every element builder and
+every diagram under construction.  A newly registered factory makes `live_tables_modelled` fail (`.other`);
+a modelled factory that gains a write makes its `ro_…` lemma fail. -/
+theorem factory_pure (r : DispatchRow) (hr : r ∈ Capella.Gen.Effects.table.dispatch) (s : Seb) (ctx : Ctx)
+    (t : Tree) : ((factoryProg (Factory.ofName r.name) s ctx).exec t).1 = t :=
+  Prog.exec_readOnly (ro_row live_tables_modelled hr s ctx) t
+
+open Capella.Effects Capella.Factories in
+/-- `parse_diagram`'s element loop over the live tables — any number of elements, each seeing what was drawn
+before — returns the tree unchanged. -/
+theorem parse_diagram_pure (dtree : Nat) (ds : List Nat) (ctx : Ctx) (t : Tree) :
+    ((parseElems Capella.Gen.Effects.table.dispatch dtree ds ctx).exec t).1 = t :=
+  Prog.exec_readOnly (ro_parseElems live_tables_modelled dtree ds ctx) t
+
+open Capella.Effects Capella.Factories in
+/-- Rendering is a function of (tree, diagram, what was drawn): parsing after any other read-only program gives
+the picture parsing alone gives. -/
+theorem parse_diagram_independent {α : Type} (p : Prog α) (hp : Prog.ReadOnly p) (dtree : Nat) (ds : List Nat)
+    (ctx : Ctx) (t : Tree) :
+    ((parseElems Capella.Gen.Effects.table.dispatch dtree ds ctx).exec (p.exec t).1).2
+      = ((parseElems Capella.Gen.Effects.table.dispatch dtree ds ctx).exec t).2 :=
+  Prog.exec_after_readOnly hp _ t
+
+open Capella.Effects in
+/-- The effect table generated from the source of the live `capellambse.aird` package: every access site of
+every function in the call-graph closure of the read-only entry points and of all registered table entries is
+harmless — a read, or a store into something that is not a model tree, or a hand-over to a known reader. -/
+theorem parser_effects_pure (r : EffRow) (hr : r ∈ Capella.Gen.Effects.rowChunks.flatten)
+    (hreach : r.fn ∈ Capella.Gen.Effects.table.reach) : r.ok = true := by
+  rcases List.mem_flatten.mp hr with ⟨ch, hch, hrc⟩
+  have h1 := List.all_eq_true.mp (Capella.Gen.Effects.rows_pure ch hch) r hrc
+  have h2 : r.fn ∈ Capella.Gen.Effects.reachable :=
+    reach_subset _ _ Capella.Gen.Effects.reach_roots Capella.Gen.Effects.reach_closed _ hreach
+  simp only [EffRow.okIn, Bool.or_eq_true, Bool.not_eq_true'] at h1
+  rcases h1 with h1 | h1
+  · have : Capella.Gen.Effects.reachable.contains r.fn = true := by simpa using h2
+    rw [this] at h1; cases h1
+  · exact h1
+
+open Capella.Effects Capella.Factories in
+/-- The factories as they were coded are expressible and are *not* pure: `req_relation_factory` with its
+`finally: attrib["name"] = label` changes this tree. (Kept so that a reverted repair is recognisable.) -/
+def effWitness : Tree := [
+  ⟨S "edges", [(S "element", S "e1"), (S "source", S "b1"), (S "target", S "b1")], [1], none, none⟩,
+  ⟨S "bendpoints", [], [], some 0, none⟩,
+  ⟨S "ownedDiagramElements", [(S "uid", S "e1")], [3], none, none⟩,
+  ⟨S "ownedStyle", [], [], some 2, none⟩,
+  ⟨S "ownedRelations", [(S "id", S "r"), (S "relationType", S "#t")], [], none, none⟩,
+  ⟨S "ownedRelationTypes", [(S "id", S "t"), (S "ReqIFLongName", S "satisfies")], [], none, none⟩]
+
+open Capella.Effects Capella.Factories in
+def effSeb : Seb := { data := 0, diag := 2, dtree := 9, objs := [4], styleclass := some (S "RequirementRelation") }
+
+open Capella.Effects Capella.Factories in
+theorem coded_factory_writes :
+    ((Coded.edgeReqRel effSeb [⟨S "b1", true, none⟩]).exec effWitness).1 ≠ effWitness := by decide
+
+open Capella.Effects Capella.Factories in
+/-- … and an unknown factory is modelled by the worst case, so it can never be proved pure by accident. -/
+theorem unknown_factory_not_pure (n : Capella.Effects.Str) :
+    ((factoryProg (.other n) effSeb []).exec effWitness).1 ≠ effWitness := by
+  show ((unknownFactory effSeb).exec effWitness).1 ≠ effWitness
+  decide
+
 -- Non-vacuity: the statements say something on concrete inputs.
 example : (render .coded witnessState "d".toList).2 = [⟨"e1".toList, "satisfies".toList, false⟩] := by decide
 example : (render .repaired witnessState "d".toList).2 = [⟨"e1".toList, "satisfies".toList, false⟩] := by decide
@@ -114,5 +207,15 @@ example : (run .repaired witnessState [.render "d".toList, .attr "r".toList kNam
 example : (pvmtApply [] ⟨"D.G".toList, []⟩).1 = [⟨"D.G".toList, []⟩] := by decide
 example : (elemStep .repaired ⟨[⟨"p".toList, "ForkPseudoState".toList, []⟩], []⟩
     ⟨"e".toList, "ForkPseudoState".toList, "p".toList, none, []⟩).2 = some ⟨"e".toList, [], true⟩ := by decide
+
+open Capella.Effects Capella.Factories in
+example : ((edgeReqRel effSeb [⟨S "b1", true, none⟩]).exec effWitness).1 = effWitness := by decide
+open Capella.Effects Capella.Factories in
+example : ((edgeReqRel effSeb [⟨S "b1", true, none⟩]).exec effWitness).2
+    = .drawn ⟨S "e1", false, some (S "RequirementRelation"), [], [], none, false, false, false, false, none⟩ := by decide
+open Capella.Effects Capella.Factories in
+example : ((Coded.edgeReqRel effSeb [⟨S "b1", true, none⟩]).trace effWitness).any (fun i => !i.isRead) = true := by decide
+example : Capella.Gen.Effects.table.dispatch.length ≥ 50 := by decide
+example : Capella.Gen.Effects.reachable.length ≥ 60 := by decide
 
 end Capella.Props.C11
